@@ -98,7 +98,7 @@ def gen_boundary(rng, n, faults):
             for _ in range(rng.randint(0, 6)):
                 x = rng.choice(["o", "o", "e", "i"])
                 if x == "e":
-                    k += 1
+                    k += rng.randint(1, 12)       # the id also selects the io::ErrorKind the scripted writer answers with
                     x = "e%d" % k
                 sc.append(x)
         out.append(mk_case(cap, e, ops, sc))
@@ -124,7 +124,7 @@ def gen_random(rng, n, faults, maxops=200):
             for _ in range(rng.randint(0, nops)):
                 x = rng.choice(["o", "o", "o", "e", "i"])
                 if x == "e":
-                    k += 1
+                    k += rng.randint(1, 12)       # the id also selects the io::ErrorKind the scripted writer answers with
                     x = "e%d" % k
                 sc.append(x)
         out.append(mk_case(cap, e, ops, sc))
